@@ -183,6 +183,8 @@ def devNum (v : Num) (t : NT) : List String :=
     | none => []
   | _, _ => []
 
+def isGoPanic {α} (r : Res α) : Bool := r.isGoPanic
+
 def addDev (ds : List String) (d : String) : List String := if ds.contains d then ds else ds ++ [d]
 def addDevs (ds es : List String) : List String := es.foldl addDev ds
 
@@ -199,6 +201,7 @@ mutual
 def devConv (v : JV) (t : GT) : List String :=
   if t.depth > 0 ∧ t.base.isAny ∧ !v.isNullish then ["call_pointer_to_interface_go_panic"] else
   match t.base with
+  | .any => if isGoPanic (exportV true v) then ["call_interface_mixed_nested_arrays_go_panic"] else []
   | .num nt => (match v with | .num n => devNum n nt | _ => [])
   | .str => (match v with
       | .num n => if goFmtV n = jsNumToString n then [] else ["call_number_to_string_gofmt"]
@@ -226,8 +229,6 @@ def devProps (ps : JPs) (ft : Str → GT) : List String :=
   | .nil => []
   | .cons k v r => addDevs (devConv v (ft k)) (devProps r ft)
 end
-
-def isGoPanic {α} : Res α → Bool | .goPanic => true | _ => false
 
 /-- does the store path take the number through float64 (toIntegerFloat / Value.float64) for this
     payload kind `pk` and target kind `k`? (value.go:763-830, value_number.go:144) -/
